@@ -14,9 +14,11 @@ from mc.models import odf, rowmodel
 # name -> (declaration, fixed width, accepted cells, rejected cells)
 CATALOGUE = {
     "id": ({"type": "Integer", "rule": {"items": [[0, 99, False]]}}, 3, ["1", "2", "3", "42", "0"], ["x", "100", "-1", "3.0"]),
-    "name": ({"type": "Text", "length": [[1, 3, False]]}, 3, ["ab", "c", "xyz"], ["", "abcd"]),
+    "name": ({"type": "Text", "length": [[1, 3, False]]}, 3, ["ab", "c", "xyz"], ["", "abcd", "a%sd"]),
+    # percent signs in the declared choices and in rejected cells (messages are built from them)
+    "pct": ({"type": "Choice", "rule": {"choices": ["0%", "10%", "%s"], "quoted": True}}, 3, ["0%", "10%", "%s"], ["5%", "%d", "100%"]),
     "kind": ({"type": "Choice", "empty": True, "rule": {"choices": ["a", "b"], "quoted": True}}, 1, ["a", "b", ""], ["q", "A"]),
-    "amount": ({"type": "Decimal", "rule": {"items": [["0", "99.99", False]]}}, 6, ["1.5", "7.0", "99.99", "0"], ["100", "1,5"]),
+    "amount": ({"type": "Decimal", "rule": {"items": [["0", "99.99", False]]}}, 6, ["1.5", "1.50", "7.0", "99.99", "0"], ["100", "1,5"]),  # 1.5 and 1.50: equal numbers, different texts (checks see the text)
     "day": ({"type": "DateTime", "rule": {"parts": ["DD", "MM", "YYYY"], "seps": [".", "."]}}, 10, ["01.02.2000", "29.02.2024"], ["31.02.2000", "x"]),
     "stamp": ({"type": "DateTime", "rule": {"parts": ["YYYY", "MM", "DD", "hh", "mm", "ss"], "seps": ["-", "-", " ", ":", ":"]}}, 19,
               ["2021-03-06 00:00:00", "2021-03-06 13:14:15", "1999-12-31 23:59:59"], ["2021-03-06", "2021-13-06 00:00:00"]),
@@ -30,7 +32,7 @@ CATALOGUE = {
     "kl": ({"type": "Text", "length": [[1, 2, False]]}, 2, ["x", " x", "y", " y"], [""]),
     "kc": ({"type": "Integer", "rule": {"items": [[0, 9, False]]}}, 1, ["1", "2"], ["z"]),
     "v": ({"type": "Text", "length": [[1, 1, True]]}, 1, ["p", "q", "r", "s", "t"], [""]),
-    "memo": ({"type": "Text", "length": [[1, 40, False]]}, 32, ["big  red box", "very  fragile\u2028handle with care\x85", "a\tb c"], [""]),
+    "memo": ({"type": "Text", "length": [[1, 40, False]]}, 32, ["\nbig  red\n\nbox", "very  fragile\u2028handle with care\x85", "a\tb c"], [""]),
     "num": ({"type": "Integer", "length": [[1, 2, False]]}, 2, ["5", "-5", "77"], ["123", "y"]),
 }
 _TMP = None
@@ -246,7 +248,9 @@ def row_shapes(config, decls, tier="quick"):
     base = ok_rows[1]
     for column, name in enumerate(names):
         rejected = CATALOGUE[name][3]
-        for variant, cell in enumerate(rejected[: (2 if tier == "thorough" else 1)]):
+        count = 2 if tier == "thorough" else 1
+        # rejected cells holding a percent sign are always included (error messages are built from cell texts)
+        for variant, cell in enumerate(list(rejected[:count]) + [c for c in rejected[count:] if "%" in c]):
             row = list(base)
             row[column] = cell
             shapes.append(("bad%d.%d" % (column, variant), row))
